@@ -146,6 +146,7 @@ type Enc struct {
 	seqTerms   []seqAt
 	seqAbstract bool // relational mode: sequences are abstract ids, no content quantifiers
 	usesSeq    bool
+	lastFrame  *frame
 	skipAssume map[string]bool
 	ufDecls    map[string]string
 	rel        *relInfo
@@ -756,6 +757,9 @@ func (e *Enc) runBody(fn *ssa.Function, args []Val, bind []Val, top bool, con *C
 		loops: findLoops(fn), ncall: map[string]int{}, nsafety: map[string]int{}, name: e.L.funcName(fn), ncallAll: map[string]int{}, assertsSeen: map[string]bool{}}
 	e.frames = append(e.frames, f)
 	defer func() { e.frames = e.frames[:len(e.frames)-1] }()
+	if top {
+		e.lastFrame = f
+	}
 	for i, p := range fn.Params {
 		if i < len(args) {
 			f.vals[p] = args[i]
